@@ -336,12 +336,26 @@ func runC08(p *load.Program, r *core.Report) {
 				}
 			}
 		})
-		if sendOK && retOK {
-			r.OK(rule3, key, fn, p.Pos(ha.Pos()), inst, "SendExit(pid, action.reason); return action.reason")
+		// "every listed child": the loop around the SendExit is left only by exhausting the list
+		loopProblem := ""
+		eachInstr(ha, func(in ssa.Instruction) {
+			if callCommon(in) != nil && callsNamed(in, "SendExit") {
+				if ok, why := loopExitsOnlyAtHeader(in); !ok {
+					loopProblem = why + " (" + p.Pos(in.Pos()) + ")"
+				}
+			}
+		})
+		if sendOK && retOK && loopProblem != "" {
+			r.Bad(rule3, key, fn, p.Pos(ha.Pos()), inst, "the loop over the listed children "+loopProblem+": the remaining children never get the exit and the supervisor waits for them forever")
+		} else if sendOK && retOK {
+			r.OK(rule3, key, fn, p.Pos(ha.Pos()), inst, "SendExit(pid, action.reason) in a loop left only by exhaustion; return action.reason")
 		} else {
 			r.Bad(rule3, key, fn, p.Pos(ha.Pos()), inst, fmt.Sprintf("exit with the action's reason: %v, termination with the action's reason: %v", sendOK, retOK))
 		}
 	}
+
+	// ---- S5 a disabled child stays down
+	c08DisabledStaysDown(p, r)
 
 	// ---- S4
 	rule4 := "C08.S4 shutdown-bookkeeping"
@@ -448,6 +462,143 @@ func runC08(p *load.Program, r *core.Report) {
 }
 
 // fieldForcedTrue: like linkParentTrue for an arbitrary bool field.
+// c08DisabledStaysDown (S5): every child spec a state machine hands out for starting — a value
+// stored into the spec field of an action, or returned by a helper whose result is stored there —
+// is either a spec created in the same function, or the dereference of a spec pointer whose
+// disabled flag was tested false (or just set false: enable) on every path to that point.
+func c08DisabledStaysDown(p *load.Program, r *core.Report) {
+	rule := "C08.S5 disabled-stays-down"
+	r.Floor(rule, 15)
+	// functions exempt by construction, confirmed by reading: they only see specs they create
+	exempt := map[string]string{
+		"init": "builds the spec list from the supervisor spec; disabled is the zero value",
+	}
+	isStrategy := func(f *ssa.Function) bool {
+		rv := root(f).Signature.Recv()
+		if rv == nil {
+			return false
+		}
+		n := namedOf(rv.Type())
+		return n == "act.supOFO" || n == "act.supARFO" || n == "act.supSOFO"
+	}
+	ptrKey := func(ptr ssa.Value) string {
+		if ld, ok := ptr.(*ssa.UnOp); ok && ld.Op == token.MUL {
+			if ia, ok := ld.X.(*ssa.IndexAddr); ok {
+				if _, path, okp := fieldPath(ia.X); okp && len(path) > 0 {
+					return "elem:" + path[len(path)-1] + "[" + ia.Index.Name() + "]"
+				}
+			}
+		}
+		return "val:" + ptr.Name()
+	}
+	// guarded: at instruction `at`, the spec behind pointer ptr is known not to be disabled
+	guarded := func(f *ssa.Function, ptr ssa.Value, at ssa.Instruction) bool {
+		key := ptrKey(ptr)
+		ok := false
+		eachInstr(f, func(in ssa.Instruction) {
+			fa, isFA := in.(*ssa.FieldAddr)
+			if !isFA || ok {
+				return
+			}
+			if _, fl := fieldOwner(fa); fl != "disabled" || ptrKey(fa.X) != key {
+				return
+			}
+			for _, rf := range *fa.Referrers() {
+				switch x := rf.(type) {
+				case *ssa.UnOp:
+					if x.Op == token.MUL {
+						_, fls, _ := boolEdges(x)
+						if len(fls) > 0 && edgesDominate(fls, at) {
+							ok = true
+						}
+					}
+				case *ssa.Store:
+					if b, okb := constBool(x.Val); okb && !b && x.Addr == ssa.Value(fa) && instrDominates(x, at) {
+						ok = true
+					}
+				}
+			}
+		})
+		return ok
+	}
+	var checkValue func(f *ssa.Function, v ssa.Value, at ssa.Instruction, depth int) (bool, string)
+	checkValue = func(f *ssa.Function, v ssa.Value, at ssa.Instruction, depth int) (bool, string) {
+		switch x := v.(type) {
+		case *ssa.UnOp:
+			if x.Op == token.MUL {
+				if al, ok := x.X.(*ssa.Alloc); ok {
+					// local spec value: created here (field-wise), or a copy of something else
+					for _, rf := range *al.Referrers() {
+						if st, ok := rf.(*ssa.Store); ok && st.Addr == ssa.Value(al) && depth < 2 {
+							if ok2, w := checkValue(f, st.Val, st, depth+1); !ok2 {
+								return false, w
+							}
+						}
+					}
+					return true, "spec value local to the function"
+				}
+				if guarded(f, x.X, at) {
+					return true, "dereference of a spec whose disabled flag is false on every path"
+				}
+				return false, "the spec is taken from the list without its disabled flag having been tested"
+			}
+		case *ssa.Parameter:
+			return true, "spec passed in by the caller"
+		case *ssa.Call:
+			if g := staticCallee(x.Common()); g != nil && depth < 2 && len(g.Blocks) > 0 {
+				allOK, why := true, ""
+				eachInstr(g, func(in ssa.Instruction) {
+					ret, ok := in.(*ssa.Return)
+					if !ok || len(ret.Results) == 0 {
+						return
+					}
+					if ok2, w := checkValue(g, unspill(ret.Results[0]), ret, depth+1); !ok2 {
+						allOK, why = false, fname(g)+": "+w
+					}
+				})
+				if allOK {
+					return true, "result of " + fname(g) + ", which returns only enabled specs"
+				}
+				return false, why
+			}
+		}
+		return false, fmt.Sprintf("spec value of unrecognised origin (%T)", v)
+	}
+	for _, f := range funcsOfPkgs(p, "act") {
+		if !isStrategy(f) {
+			continue
+		}
+		seq := 0
+		eachInstr(f, func(in ssa.Instruction) {
+			st, ok := in.(*ssa.Store)
+			if !ok {
+				return
+			}
+			fa, ok := st.Addr.(*ssa.FieldAddr)
+			if !ok {
+				return
+			}
+			own, fl := fieldOwner(fa)
+			if own == nil || own.Obj().Name() != "supAction" || fl != "spec" {
+				return
+			}
+			seq++
+			fn := fname(f)
+			key := fmt.Sprintf("C08.S5|%s|start-spec#%d", fn, seq)
+			inst := "the child spec handed out for starting is not a disabled one"
+			if why, ex := exempt[f.Name()]; ex {
+				r.OK(rule, key, fn, p.Pos(st.Pos()), inst, "listed: "+why)
+				return
+			}
+			if ok2, why := checkValue(f, st.Val, st, 0); ok2 {
+				r.OK(rule, key, fn, p.Pos(st.Pos()), inst, why)
+			} else {
+				r.Bad(rule, key, fn, p.Pos(st.Pos()), inst, why+": a child disabled with DisableChild is started again by the restart strategy")
+			}
+		})
+	}
+}
+
 func fieldForcedTrue(opt ssa.Value, at ssa.Instruction, field string) bool {
 	ld, ok := opt.(*ssa.UnOp)
 	if !ok {
